@@ -212,6 +212,33 @@ def lazy_leaves(t):
     return sorted(names)
 
 
+def number_blocked(t):
+    """True when some lazy Stack / Lambda / Cat node of the result has a Number (not a Tensor) as a part or body: funsor
+    has eager rules for these constructors over Tensors only, and C01's completion clause speaks of *tensor* expressions,
+    so such a node staying lazy is a permitted decline, not a failed completion."""
+    import funsor.terms as T
+
+    seen = set()
+
+    def go(x):
+        if isinstance(x, Funsor):
+            if id(x) in seen or D.is_evaluated(x):
+                return False
+            seen.add(id(x))
+            if isinstance(x, (T.Stack, T.Lambda, T.Cat)):
+                kids = []
+                for v in x._ast_values:
+                    kids.extend(v if isinstance(v, tuple) else [v])
+                if any(isinstance(k, T.Number) for k in kids):
+                    return True
+            return any(go(v) for v in x._ast_values)
+        if isinstance(x, (tuple, frozenset)):
+            return any(go(v) for v in x)
+        return False
+
+    return go(t)
+
+
 def check_c01(case, meta, out=None):
     """meta: dict(core_ground=bool, tags=[...])"""
     out = out or Outcome()
@@ -229,7 +256,9 @@ def check_c01(case, meta, out=None):
             if oracle.error.startswith("oracle_exception"):
                 out.notes.append("oracle_exception on %s: %s" % (case.src[:300], oracle.error))
         return out
-    complete_required = bool(meta.get("core_ground")) and oracle.all_finite()
+    # the completion clause speaks of *tensor* expressions: a Number placed directly as a Stack / Cat part or Lambda body
+    # has no eager rule (funsor's rules for these constructors are over Tensors), so completion is not required there
+    complete_required = bool(meta.get("core_ground")) and oracle.all_finite() and "number-part" not in tags
     try:
         result = build(case.ns, case.src)
     except Exception as exc:
@@ -246,7 +275,9 @@ def check_c01(case, meta, out=None):
         return out
     if not D.is_evaluated(result):
         out.declined += 1
-        if complete_required:
+        if complete_required and number_blocked(result):
+            out.skip("declined:number_operand_of_stack_lambda_cat")
+        elif complete_required:
             out.ev("C01.core_completes", "lazy")
             out.bad("C01.core_completes", "eager evaluation of a ground core-fragment expression stayed lazy: %s"
                     % type(result).__name__, tags + ("stayed-lazy",) + tuple("lazy-leaf:" + n for n in lazy_leaves(result)))
